@@ -447,6 +447,8 @@ func (index *PatternIndex) searchPairs(ctx *Context, pairs []piPair) (StringSet,
 				mp = vv.(map[string]interface{})
 			}
 
+			// Patterns that end with an empty map here.
+			ids.AddAll(mi.Ids)
 			morePairs := mapToPairs(ctx, mp)
 			morePairs = append(morePairs, rest...)
 			more, err := mi.searchPairs(ctx, morePairs)
@@ -501,7 +503,13 @@ func (index *PatternIndex) searchPairs(ctx *Context, pairs []piPair) (StringSet,
 
 // SearchPatternsMap searchs the index for patterns that match the given fact (or event).
 func (index *PatternIndex) SearchPatternsMap(ctx *Context, fact map[string]interface{}) (StringSet, error) {
-	return index.searchPairs(ctx, mapToPairs(ctx, fact))
+	ids, err := index.searchPairs(ctx, mapToPairs(ctx, fact))
+	if err != nil {
+		return nil, err
+	}
+	// Patterns without any (indexable) constraint match every map.
+	ids.AddAll(index.Ids)
+	return ids, nil
 }
 
 // AddPatternJSON adds the given pattern (as a map) to the index.
